@@ -1,6 +1,7 @@
 import MobiusModel.Containment
 import MobiusModel.Lockset
 import MobiusModel.RWLock
+import MobiusModel.GrownState
 import MobiusModel.Generated.Concurrency
 import MobiusModel.Generated.LockShape
 import MobiusModel.Spec.ConcurrencySpec
@@ -173,5 +174,37 @@ example : RWLock.step ⟨[1], none, [2, 3, 4]⟩ 1 .rlock = none ∧ RWLock.step
 -- the same nesting with no writer in between returns
 example : RWLock.run RWLock.init [(1, .rlock), (1, .rlock), (1, .runlock), (1, .runlock)] = some RWLock.init :=
   RWLock.nested_rlock_without_writer_returns 1
+
+-- ---------------------------------------------------------------- wave e: shared state grown past the 16-bit field limit
+
+/-- **The header frames exactly the bytes written, for every field size**: a transaction occupies
+    20 + 2 + Σ (4 + |data|) bytes on the socket, also when a field's data exceeds 65535 bytes and its
+    16-bit prefix wraps. -/
+theorem reply_header_frames_bytes_written (t : Transaction) :
+    t.encode.length = 20 + 2 + (t.fields.map fun f => 4 + f.data.length).sum ∧
+    (GrownState.replyHeader (t.fields.map fun f => f.data.length)).1 = t.payloadSize :=
+  ⟨GrownState.encode_length_any_field t, GrownState.replyHeader_total t⟩
+
+/-- **One client's posts cannot cut off the others**: for every stream of transactions the server writes
+    to a client (fields of ANY length — e.g. the message board after posts that made it longer than 65535
+    or 131071 bytes), a reader that trusts the transaction header finds every transaction, hence every
+    later reply, exactly as sent. -/
+theorem header_trusting_reader_resynchronises (ts : List Transaction)
+    (h : ∀ t ∈ ts, t.payloadSize + 20 < 4294967296) (rest : Bytes) :
+    GrownState.reframe ts.length (GrownState.streamOf ts ++ rest) = ts.map Transaction.encode :=
+  GrownState.reframe_stream ts h rest
+
+/-- The board reply after any posts, followed by any other reply: both are found. -/
+theorem reply_after_grown_board_is_found (id : Nat) (init : Bytes) (posts : List Bytes) (next : Transaction) (rest : Bytes)
+    (hb : (GrownState.board init posts).length + 26 < 4294967296) (hn : next.payloadSize + 20 < 4294967296) :
+    GrownState.reframe 2 ((GrownState.boardReply id (GrownState.board init posts)).encode ++ next.encode ++ rest) =
+      [(GrownState.boardReply id (GrownState.board init posts)).encode, next.encode] :=
+  GrownState.next_reply_found_after_board id _ next rest hb hn
+
+/-- Non-vacuity: three posts of 30000 bytes onto a 39601-byte board: the field holds 129601 bytes, its
+    prefix announces 64065, the header announces all of them. -/
+example (init a b c : Bytes) (h0 : init.length = 39601) (ha : a.length = 30000) (hb : b.length = 30000) (hc : c.length = 30000) :
+    GrownState.replyHeader [(GrownState.board init [a, b, c]).length] = (129607, [64065]) := by
+  rw [(GrownState.boardReply_header 7 _ _).2]; simp [h0, ha, hb, hc]
 
 end Mobius.C03
